@@ -261,7 +261,7 @@ func genScenario(t *rapid.T) (scenario, slog.Attrs) {
 	}
 	sc.How = rapid.SampledFrom([]int{0, 0, 1, 2, 3}).Draw(t, "howFormatIsSet")
 	sc.FlagsHow = rapid.SampledFrom([]int{0, 0, 1, 2, 3, 4}).Draw(t, "flagsHow")
-	sc.Disturb = rapid.SampledFrom([]int{0, 0, 0, 1, 2, 3, 4, 5, 6, 7}).Draw(t, "disturbance")
+	sc.Disturb = vlib.GenDisturb().Draw(t, "disturbance")
 	sc.Layout = rapid.SampledFrom([]string{"", "", "", time.Kitchen, time.Stamp, "15:04", "15:04:05.000"}).Draw(t, "ownTimeLayout")
 	sc.Msg = vlib.GenMsg().Draw(t, "msg")
 	if sc.Sev == slog.AlwaysLevel && strings.Trim(sc.Msg, " \t\r\n") == "" {
